@@ -128,6 +128,6 @@ def main():
     print("wrote MANIFEST.json with", len(checks), "checks")
 
 HOOK_COMMITS = ["78e340d", "d44ea4a", "1cb7bec"]
-FIX_COMMITS = ["05f0b8b", "5c16ad3", "5bc8107", "76f58ba", "3a5804a", "6fcb3da", "54e1f35", "c02585d", "dc8f1a6", "95554d9"]
+FIX_COMMITS = ["05f0b8b", "5c16ad3", "5bc8107", "76f58ba", "3a5804a", "6fcb3da", "54e1f35", "c02585d", "dc8f1a6", "95554d9", "2060620"]
 if __name__ == "__main__":
     main()
